@@ -27,6 +27,7 @@ class Search:
         self.samples = []
         self.by_unit = {}
         self.glue = []
+        self.extra = {}
 
     def record(self, unit, inp, nontrivial=True):
         self.evaluations += 1
@@ -50,7 +51,7 @@ class Search:
 
     def report(self):
         return {"evaluations": self.evaluations, "distinct_nontrivial": len(self.keys), "rule": self.rule,
-                "failures": self.failures, "samples": self.samples, "by_unit": self.by_unit, "seed": self.seed}
+                "failures": self.failures, "samples": self.samples, "by_unit": self.by_unit, "seed": self.seed, "extra": self.extra}
 
 
 def fl(x):
